@@ -10,6 +10,8 @@
    Token plaintexts: cursor = call id + state; call = call id, METHOD, schema, stream id.
    The AEAD (XChaCha20-Poly1305 with gob / zstd / base64 folded in) is a pair of section
    variables; the executable [model] instantiates the symbolic ideal AEAD.
+   The per-process call-state cache is the real bounded LRU (callStateCache.get / put):
+   capacity, move-to-front on a hit, trim from the back on a put; the capacity is set by ops.
    One caller identity throughout (identity binding is C13); token age is C15; forged
    ciphertexts are C12: presented tokens are server-minted ones, as minted or with the
    unauthenticated envelope rewritten for the slot. *)
@@ -53,6 +55,10 @@ Definition kind_eqb (a b : kind) : bool :=
 (* what resolveCall hands back: callTokenData minus CreatedAt and CallID *)
 Record resolved := { r_meth : bytes; r_schema : bool; r_stream : N }.
 
+(* the fixed half /init seals for call c of method info (and caches) *)
+Definition resolved_for (info : method) (c : N) : resolved :=
+  {| r_meth := m_name info; r_schema := true; r_stream := c |}.
+
 Inductive payload :=
 | PCursor (c : N) (s : state)          (* cursorTokenData{CallID, State} *)
 | PCall (c : N) (r : resolved).        (* callTokenData{CallID, Method, SchemaIPC, StreamID} *)
@@ -94,15 +100,31 @@ Definition result_eqb (a b : result) : bool :=
 (* the request body of a continuation: an empty-schema tick or an {x:int64} batch *)
 Inductive body := Tick | Data.
 
-(* call-state cache of one process: call id -> resolved call *)
+(* call-state cache of one process (callStateCache): an LRU list, most recently used
+   first, call id -> resolved call, holding at most [cap] entries; cap = 0 disables it *)
 Definition cache := list (N * resolved).
 Fixpoint cache_get (c : N) (ch : cache) : option resolved :=
   match ch with
   | [] => None
   | (c', r) :: t => if c' =? c then Some r else cache_get c t
   end.
-(* put replaces the entry (the newest binding shadows) *)
-Definition cache_put (c : N) (r : resolved) (ch : cache) : cache := (c, r) :: ch.
+Fixpoint remove_key (c : N) (ch : cache) : cache :=
+  match ch with
+  | [] => []
+  | (c', r) :: t => if c' =? c then remove_key c t else (c', r) :: remove_key c t
+  end.
+(* put: an existing key is updated and moved to the front; a new key is pushed to the
+   front and the list is trimmed from the back while it is longer than cap *)
+Definition cache_put (cap : nat) (c : N) (r : resolved) (ch : cache) : cache :=
+  firstn cap ((c, r) :: remove_key c ch).
+(* get hit: MoveToFront *)
+Definition touch (c : N) (ch : cache) : cache :=
+  match cache_get c ch with
+  | Some r => (c, r) :: remove_key c ch
+  | None => ch
+  end.
+(* the size NewHttpServer gives the cache (any size the histories never reach) *)
+Definition default_cap : nat := 1024.
 
 Inductive tokref :=
 | TNone                               (* slot left empty *)
@@ -112,7 +134,7 @@ Inductive op :=
 | OInit (inst : bool) (m : nat)       (* POST /{m}/init on instance inst *)
 | OReset (inst : bool)                (* that process's cache loses its entries (restart) *)
 | OOff (inst : bool)                  (* SetCallStateCacheEntries(0) *)
-| OOn (inst : bool)                   (* cache enabled again, empty *)
+| OOn (inst : bool) (cap : nat)       (* SetCallStateCacheEntries(cap): a fresh cache of that size *)
 | OCont (inst : bool) (route : nat) (cur call : tokref) (cancel : bool) (b : body) (rfail : bool).
                                       (* POST /{route}/exchange; rfail: the RehydrateFunc errs *)
 
@@ -164,52 +186,56 @@ Section AEAD.
 
   (* outcome of one continuation: the response, the cache store of the miss path, and the
      state sealed into the fresh cursor *)
-  Record outcome := { o_res : result; o_put : option (N * resolved); o_next : option (N * state) }.
+  Record outcome := { o_res : result; o_put : option (N * resolved); o_touch : option N;
+                      o_next : option (N * state) }.
 
-  Definition refuse (status : N) (exc : bytes) (put : option (N * resolved)) : outcome :=
-    {| o_res := R status exc false [] false; o_put := put; o_next := None |}.
+  (* o_touch: a cache hit moved the entry of that call to the front; o_put: the miss path
+     stored the opened call token *)
+  Definition refuse (status : N) (exc : bytes) (put : option (N * resolved)) (tch : option N) : outcome :=
+    {| o_res := R status exc false [] false; o_put := put; o_touch := tch; o_next := None |}.
 
   (* the turn that runs once every check has passed *)
   Definition run_turn (route : nat) (info : method) (c : N) (s : state) (cancel rfail : bool)
-             (put : option (N * resolved)) : outcome :=
+             (put : option (N * resolved)) (tch : option N) : outcome :=
     let ty := st_ty s in
     let rehyd := ARehyd (ty_id ty) route in
     if rfail then
-      {| o_res := R 500 exc_runtime_error false [rehyd] false; o_put := put; o_next := None |}
+      {| o_res := R 500 exc_runtime_error false [rehyd] false; o_put := put; o_touch := tch; o_next := None |}
     else
       let pre := [rehyd; AHook route cancel] in
       if cancel then
         {| o_res := R 200 [] false (pre ++ if ty_canc ty then [ACancel (st_pos s)] else []) false;
-           o_put := put; o_next := None |}
+           o_put := put; o_touch := tch; o_next := None |}
       else
         let a := if is_producer (m_mode info) ty then AProduce (st_pos s) else AExchange (st_pos s) in
-        {| o_res := R 200 [] false (pre ++ [a]) true; o_put := put;
+        {| o_res := R 200 [] false (pre ++ [a]) true; o_put := put; o_touch := tch;
            o_next := Some (c, {| st_ty := ty; st_pos := st_pos s + 1 |}) |}.
 
   (* handleStreamExchange, in the order of the code *)
   Definition continue_dec (reg : registry) (route : nat) (b : body) (cancel rfail : bool)
              (cache_on : bool) (ch : cache) (tc tk : option token) : outcome :=
     match lookup reg route with
-    | None => refuse 404 c14_exc_not_implemented None
+    | None => refuse 404 c14_exc_not_implemented None None
     | Some info =>
         (* cast of the input batch to the registered input schema (exchange methods only;
            a dynamic method registers none), skipped on cancel *)
-        if cast_blocks info b cancel then refuse 400 c14_exc_cast None else
+        if cast_blocks info b cancel then refuse 400 c14_exc_cast None None else
         match tc with
-        | None => refuse 400 exc_runtime_error None                 (* Missing state token *)
+        | None => refuse 400 exc_runtime_error None None                 (* Missing state token *)
         | Some tcur =>
             match open_slot KCursor tcur with
             | Some (PCursor c s) =>
                 match resolve_dec cache_on ch c tk with
-                | None => refuse 400 exc_runtime_error None
+                | None => refuse 400 exc_runtime_error None None
                 | Some (call, stored) =>
                     let put := if stored then Some (c, call) else None in
+                    let tch := if stored then None else Some c in
                     (* THE METHOD CHECK: before rehydrate, hook, cancel, any state code *)
-                    if negb (beqb (r_meth call) (m_name info)) then refuse 400 exc_runtime_error put
-                    else if negb (state_fits (m_mode info) (st_ty s)) then refuse 400 exc_runtime_error put
-                    else run_turn route info c s cancel rfail put
+                    if negb (beqb (r_meth call) (m_name info)) then refuse 400 exc_runtime_error put tch
+                    else if negb (state_fits (m_mode info) (st_ty s)) then refuse 400 exc_runtime_error put tch
+                    else run_turn route info c s cancel rfail put tch
                 end
-            | _ => refuse 400 exc_runtime_error None
+            | _ => refuse 400 exc_runtime_error None None
             end
         end
     end.
@@ -219,25 +245,26 @@ Section AEAD.
   Definition continue_dec_legacy (reg : registry) (route : nat) (b : body) (cancel rfail : bool)
              (cache_on : bool) (ch : cache) (tc tk : option token) : outcome :=
     match lookup reg route with
-    | None => refuse 404 c14_exc_not_implemented None
+    | None => refuse 404 c14_exc_not_implemented None None
     | Some info =>
-        if cast_blocks info b cancel then refuse 400 c14_exc_cast None else
+        if cast_blocks info b cancel then refuse 400 c14_exc_cast None None else
         match tc with
-        | None => refuse 400 exc_runtime_error None
+        | None => refuse 400 exc_runtime_error None None
         | Some tcur =>
             match open_slot KCursor tcur with
             | Some (PCursor c s) =>
                 match resolve_dec cache_on ch c tk with
-                | None => refuse 400 exc_runtime_error None
+                | None => refuse 400 exc_runtime_error None None
                 | Some (call, stored) =>
                     let put := if stored then Some (c, call) else None in
+                    let tch := if stored then None else Some c in
                     if cancel || rfail || state_fits (m_mode info) (st_ty s)
-                    then run_turn route info c s cancel rfail put
+                    then run_turn route info c s cancel rfail put tch
                     else (* tokenData.State.(ProducerState) on a state that is not one *)
                       {| o_res := R 0 [] true [ARehyd (ty_id (st_ty s)) route; AHook route cancel] false;
-                         o_put := put; o_next := None |}
+                         o_put := put; o_touch := tch; o_next := None |}
                 end
-            | _ => refuse 400 exc_runtime_error None
+            | _ => refuse 400 exc_runtime_error None None
             end
         end
     end.
@@ -245,25 +272,34 @@ Section AEAD.
   (* ---- histories over two processes sharing the token key ---------------------- *)
   Record st := {
     s_toks : list token; s_ncalls : N; s_nonce : N;
-    s_on0 : bool; s_ch0 : cache; s_on1 : bool; s_ch1 : cache }.
+    s_cap0 : nat; s_ch0 : cache; s_cap1 : nat; s_ch1 : cache }.
 
   Definition st0 : st :=
-    {| s_toks := []; s_ncalls := 0; s_nonce := 0; s_on0 := true; s_ch0 := []; s_on1 := true; s_ch1 := [] |}.
+    {| s_toks := []; s_ncalls := 0; s_nonce := 0;
+       s_cap0 := default_cap; s_ch0 := []; s_cap1 := default_cap; s_ch1 := [] |}.
 
-  Definition on_of (s : st) (i : bool) : bool := if i then s_on1 s else s_on0 s.
+  Definition cap_of (s : st) (i : bool) : nat := if i then s_cap1 s else s_cap0 s.
+  (* callStateCache.get / put are no-ops when max <= 0 *)
+  Definition on_of (s : st) (i : bool) : bool := negb (Nat.eqb (cap_of s i) 0).
   Definition ch_of (s : st) (i : bool) : cache := if i then s_ch1 s else s_ch0 s.
-  Definition set_cache (s : st) (i : bool) (on : bool) (ch : cache) : st :=
+  Definition set_cache (s : st) (i : bool) (cap : nat) (ch : cache) : st :=
     if i then {| s_toks := s_toks s; s_ncalls := s_ncalls s; s_nonce := s_nonce s;
-                 s_on0 := s_on0 s; s_ch0 := s_ch0 s; s_on1 := on; s_ch1 := ch |}
+                 s_cap0 := s_cap0 s; s_ch0 := s_ch0 s; s_cap1 := cap; s_ch1 := ch |}
     else {| s_toks := s_toks s; s_ncalls := s_ncalls s; s_nonce := s_nonce s;
-            s_on0 := on; s_ch0 := ch; s_on1 := s_on1 s; s_ch1 := s_ch1 s |}.
+            s_cap0 := cap; s_ch0 := ch; s_cap1 := s_cap1 s; s_ch1 := s_ch1 s |}.
   Definition add_toks (s : st) (ts : list token) (calls nonces : N) : st :=
     {| s_toks := s_toks s ++ ts; s_ncalls := s_ncalls s + calls; s_nonce := s_nonce s + nonces;
-       s_on0 := s_on0 s; s_ch0 := s_ch0 s; s_on1 := s_on1 s; s_ch1 := s_ch1 s |}.
-  (* a cache store happens only when the cache is enabled *)
+       s_cap0 := s_cap0 s; s_ch0 := s_ch0 s; s_cap1 := s_cap1 s; s_ch1 := s_ch1 s |}.
+  (* a cache store: LRU put within the process's capacity (capacity 0: nothing is kept) *)
   Definition store (s : st) (i : bool) (p : option (N * resolved)) : st :=
     match p with
-    | Some (c, r) => if on_of s i then set_cache s i true (cache_put c r (ch_of s i)) else s
+    | Some (c, r) => set_cache s i (cap_of s i) (cache_put (cap_of s i) c r (ch_of s i))
+    | None => s
+    end.
+  (* a cache hit moves the entry to the front *)
+  Definition touched (s : st) (i : bool) (t : option N) : st :=
+    match t with
+    | Some c => set_cache s i (cap_of s i) (touch c (ch_of s i))
     | None => s
     end.
 
@@ -295,17 +331,17 @@ Section AEAD.
               let c := s_ncalls s in
               (* a producer's first turn runs inside /init *)
               let s0 := {| st_ty := ty; st_pos := if is_producer (m_mode info) ty then 1 else 0 |} in
-              let r := {| r_meth := m_name info; r_schema := true; r_stream := c |} in
+              let r := resolved_for info c in
               let s' := add_toks s [mint (s_nonce s) (PCursor c s0); mint (s_nonce s + 1) (PCall c r)] 1 2 in
               (store s' i (Some (c, r)), R 200 [] false [] true)
           end
-      | OReset i => (set_cache s i (on_of s i) [], quiet 0 [])
-      | OOff i => (set_cache s i false [], quiet 0 [])
-      | OOn i => (set_cache s i true [], quiet 0 [])
+      | OReset i => (set_cache s i (cap_of s i) [], quiet 0 [])
+      | OOff i => (set_cache s i 0 [], quiet 0 [])
+      | OOn i cap => (set_cache s i cap [], quiet 0 [])
       | OCont i route cur call cancel b rfail =>
           let out := dec reg route b cancel rfail (on_of s i) (ch_of s i)
                          (deref s KCursor cur) (deref s KCall call) in
-          let s1 := store s i (o_put out) in
+          let s1 := store (touched s i (o_touch out)) i (o_put out) in
           let s2 := match o_next out with
                     | Some (c, nx) => add_toks s1 [mint (s_nonce s1) (PCursor c nx)] 0 1
                     | None => s1
